@@ -18,6 +18,7 @@ from __future__ import annotations
 
 import ast
 
+from ..paths import structural_guards  # noqa: E402
 from ..core import (UNKNOWN, AnalysisError, ClassInfo, FuncInfo, Repo, body_no_doc, call_name, is_self_attr, names_in,
                     norm, walk_no_nested)
 from ..registry import _propdef_items, build_registry, element_classes, propdefs, property_names
@@ -927,6 +928,150 @@ def r12n(ctx, reg):
                        f"written under another name")
 
 
+def r12o(ctx, reg):
+    """serialize() takes declarations out of the tags, nothing out of the content.
+
+    Element.serialize() removes the `xmlns:*` declarations lxml repeats on a fragment.  "Parsing that XML yields an equal infoset" needs
+    the removal to touch start tags only: character data and attribute values that merely look like a declaration are content.  In
+    serialized XML `<` and `>` are escaped in content and `"` is escaped inside attribute values, so a substitution applied inside
+    `<…>` matches with a double-quoted pattern is safe; applied to the whole string, or accepting single quotes (which lxml leaves raw
+    inside attribute values), it deletes content.  Rule: in `_strip_namespaces` the declaration pattern is applied to the text of a tag
+    match, never to the function's parameter, and its quotes are double quotes.
+    """
+    repo = ctx.repo
+    ctx.rule("R12o", "Element._strip_namespaces removes xmlns declarations inside tags only, double-quoted as lxml writes them", floor=1)
+    f = repo.func("Element._strip_namespaces")
+    par = [a.arg for a in f.node.args.args if a.arg not in ("self", "cls")][0]
+    m = f.module
+
+    def pattern_of(c):
+        if isinstance(c.func.value, ast.Name) and c.func.value.id == "re":
+            return repo.fold(c.args[0], m) if c.args else None
+        node = m.assigns.get(c.func.value.id) if isinstance(c.func.value, ast.Name) else None
+        return repo.fold(node.args[0], m) if isinstance(node, ast.Call) and node.args else None
+
+    subs = [c for c in ast.walk(f.node) if isinstance(c, ast.Call) and isinstance(c.func, ast.Attribute) and c.func.attr in ("sub", "subn")]
+    bad = []
+    seen_decl = False
+    for c in subs:
+        pat = pattern_of(c)
+        if not isinstance(pat, str) or "xmlns" not in pat:
+            continue
+        seen_decl = True
+        subject = c.args[-1] if isinstance(c.func.value, ast.Name) and c.func.value.id != "re" else (c.args[2] if len(c.args) > 2 else None)
+        if isinstance(subject, ast.Name) and subject.id == par:
+            bad.append((c, f"`{norm(c, 50)}` runs over the whole serialized text"))
+        if "'" in pat:
+            bad.append((c, f"pattern {pat!r} also accepts single quotes, which lxml leaves raw inside attribute values"))
+    if not seen_decl:
+        raise AnalysisError("R12o: declaration pattern not found in Element._strip_namespaces")
+    ctx.instance("R12o", f"{f.file}:{f.ident}", "declarations removed inside tags only", ok=not bad, nontrivial=True, line=f.node.lineno)
+    for c, why in bad[:1]:
+        ctx.report("R12o", f, c, why.split("`")[1] if "`" in why else why,
+                   f"Element._strip_namespaces: {why}; text or an attribute value that looks like ' xmlns:a=\"b\"' is deleted from the serialisation, so parsing it back does not give "
+                   f"the element that was serialised")
+
+
+def r12p(ctx, reg):
+    """A memo and the attribute it remembers are written together.
+
+    A few getters remember their answer in a plain attribute of the wrapper (`Style.family` in `_family`) and never look at the XML again.
+    The setter of such a property must refresh the memo on every path, whatever else it does; a setter that updates only the XML leaves the
+    instance answering the old value — and everything that is gated on it (family-specific properties, default property area) — while
+    the serialised element, its clone and its re-parsed twin answer the new one.  Rule: for every explicit property of an element class
+    whose getter stores into `self._x` and returns it, every normal path through the setter assigns `self._x`.
+    """
+    from ..paths import cfg_of, node_of
+    repo = ctx.repo
+    ctx.rule("R12p", "a property whose getter memoises in self._x has a setter that assigns self._x on every path", floor=1)
+    n = 0
+    for c in element_classes(repo) + [repo.cls("Element")]:
+        for name, fs in c.methods.items():
+            g = next((f for f in fs if f.kind == "getter" and f.cls is c), None)
+            st = next((f for f in fs if f.kind == "setter" and f.cls is c), None)
+            if g is None or st is None:
+                continue
+            memo = {t.attr for a in walk_no_nested(g.node) if isinstance(a, ast.Assign) for t in a.targets
+                    if isinstance(t, ast.Attribute) and isinstance(t.value, ast.Name) and t.value.id == "self" and t.attr.startswith("_")}
+            rets = {r.value.attr for r in walk_no_nested(g.node) if isinstance(r, ast.Return) and isinstance(r.value, ast.Attribute) and isinstance(r.value.value, ast.Name) and r.value.value.id == "self"}
+            memo &= rets
+            for m_ in sorted(memo):
+                n += 1
+                cfg = cfg_of(st)
+                ws = [node_of(cfg, a) for a in walk_no_nested(st.node) if isinstance(a, (ast.Assign, ast.AugAssign)) and any(
+                    isinstance(t, ast.Attribute) and t.attr == m_ and isinstance(t.value, ast.Name) and t.value.id == "self" for t in (a.targets if isinstance(a, ast.Assign) else [a.target]))]
+                ws = [w for w in ws if w is not None]
+                byp = cfg.path_avoiding(cfg.entry, cfg.exit, ws, follow_exc=False) if ws else [None]
+                ok = bool(ws) and byp is None
+                ctx.instance("R12p", f"{st.file}:{st.ident}", f"setter refreshes the memo self.{m_} of the getter on every path", ok=ok, nontrivial=True, line=st.node.lineno)
+                if not ok:
+                    ctx.report("R12p", st, st.node, f"{c.name}.{name} setter may leave self.{m_} unchanged",
+                               f"the getter of {c.name}.{name} answers from the memo self.{m_} once it is set; its setter has a path that does not assign it: after a read, assigning the "
+                               f"property changes the XML but the instance keeps answering the old value — it disagrees with its own serialisation, its clone and its re-parsed twin")
+    if n == 0:
+        raise AnalysisError("R12p: no memoising property found (Style.family expected)")
+
+
+def r12q(ctx, reg):
+    """Renaming a node does not change the class of the wrapper that is already around it.
+
+    `elem.tag = "text:p"` renames the XML node; the Python object stays an instance of the class it was created with.  Where the old and the
+    new tag belong to different registered classes, the object that is handed on is a `<text:p>` that is a Header: every other access path
+    (re-parsing, clone, children, xpath) gives a Paragraph for the same node.  Rule: for every store `<x>.tag = <constant>` whose receiver's
+    former tag is known (created with from_tag/constructor in the function, or tested with `<y>.tag == <constant>` in force for the value
+    it was cloned from), the class registered for the new tag is the class registered for the old one.
+    """
+    repo = ctx.repo
+    ctx.rule("R12q", "a wrapper is retagged only between tags of the same registered class", floor=2)
+    tag2cls = {t: c.name for t, c in reg.tag2cls.items()}
+    n = 0
+    for f in repo.all_funcs():
+        if "/scripts/" in f.file:
+            continue
+        for a in walk_no_nested(f.node):
+            if not (isinstance(a, ast.Assign) and len(a.targets) == 1 and isinstance(a.targets[0], ast.Attribute) and a.targets[0].attr == "tag" and isinstance(a.targets[0].value, ast.Name)):
+                continue
+            new = repo.fold(a.value, f.module, f.cls)
+            if not isinstance(new, str):
+                if isinstance(a.value, ast.Attribute) and a.value.attr == "_tag" and isinstance(a.value.value, ast.Name) and repo.find_class(a.value.value.id) is not None:
+                    new = repo.fold_class_const(repo.find_class(a.value.value.id), "_tag")
+            if not isinstance(new, str):
+                continue
+            x = a.targets[0].value.id
+            old = None
+            # created here
+            for d in walk_no_nested(f.node):
+                if isinstance(d, ast.Assign) and any(isinstance(t, ast.Name) and t.id == x for t in d.targets) and d.lineno < a.lineno:
+                    v = d.value
+                    src = v.value if isinstance(v, ast.Attribute) and v.attr == "clone" else v
+                    if isinstance(src, ast.Call) and call_name(src) == "from_tag" and src.args:
+                        t_ = repo.fold(src.args[0], f.module)
+                        old = t_ if isinstance(t_, str) and not t_.startswith("<") else old
+                    elif isinstance(src, ast.Call) and isinstance(src.func, ast.Name) and repo.find_class(src.func.id) is not None:
+                        t_ = repo.fold_class_const(repo.find_class(src.func.id), "_tag")
+                        old = t_ if isinstance(t_, str) else old
+                    elif isinstance(src, ast.Name):
+                        # cloned from / alias of a value whose tag is tested in force
+                        for t, pol in structural_guards(a, stop=f.node):
+                            if pol and isinstance(t, ast.Compare) and len(t.ops) == 1 and isinstance(t.ops[0], ast.Eq) and isinstance(t.left, ast.Attribute) and t.left.attr == "tag" \
+                                    and isinstance(t.left.value, ast.Name) and t.left.value.id == src.id:
+                                t_ = repo.fold(t.comparators[0], f.module)
+                                old = t_ if isinstance(t_, str) else old
+            n += 1
+            if old is None:
+                ctx.instance("R12q", f"{f.file}:{f.ident}", f"`{norm(a, 40)}`: former tag not known here", ok=True, line=a.lineno)
+                continue
+            co, cn = tag2cls.get(old, "Element"), tag2cls.get(new, "Element")
+            ok = co == cn
+            ctx.instance("R12q", f"{f.file}:{f.ident}", f"`{norm(a, 40)}`: {old} ({co}) -> {new} ({cn})", ok=ok, nontrivial=True, line=a.lineno)
+            if not ok:
+                ctx.report("R12q", f, a, norm(a, 60),
+                           f"{f.ident} renames a node wrapped as {co} ({old}) to {new}, the tag of {cn}: the object handed on is a <{new}> of class {co}, while parsing the same XML, "
+                           f"cloning it or reaching it through children/xpath gives a {cn}")
+    if n < 2:
+        raise AnalysisError("R12q: tag stores not found")
+
+
 def r12m(ctx, reg):
     """Explicit property accessors do not rewrite the value either.
 
@@ -976,6 +1121,9 @@ def run(ctx):
     r12l(ctx, reg)
     r12m(ctx, reg)
     r12n(ctx, reg)
+    r12o(ctx, reg)
+    r12p(ctx, reg)
+    r12q(ctx, reg)
     # `clone` is one of the access paths of the property: a clone must be a detached copy of its own (rules shared with C10)
     from .c10 import r10c, r10g
     r10c(ctx)
@@ -1021,6 +1169,16 @@ SEEDS = [
          "        value = element.get(lxml_tag)\n        if not value:\n            return None\n        if value in (\"true\", \"false\"):", "R12l"),
     Seed("_decode_qname lower-cases the name", "fault", "src/odfdo/element.py", '    if ":" in qname:\n        prefix, name = qname.split(":")', '    qname = qname.strip().lower()\n    if ":" in qname:\n        prefix, name = qname.split(":")', "R12n"),
     Seed("_decode_qname splits on the first colon only", "neutral", "src/odfdo/element.py", '        prefix, name = qname.split(":")', '        prefix, name = qname.split(":", 1)'),
+    Seed("_strip_namespaces runs over the whole text again", "fault", "src/odfdo/element.py",
+         '        return _re_tag.sub(lambda tag: _re_xmlns.sub("", tag.group()), data)', '        return _re_xmlns.sub("", data)', "R12o"),
+    Seed("_strip_namespaces accepts single-quoted declarations", "fault", "src/odfdo/element.py",
+         '_re_xmlns = re.compile(r\' xmlns:\\w*="[\\w:\\-\\/\\.#]*"\')', '_re_xmlns = re.compile(r""" xmlns:\\w*=(["\'])[\\w:\\-\\/\\.#]*\\1""")', "R12o"),
+    Seed("Style.family setter leaves the memo alone for standard families", "fault", "src/odfdo/style.py",
+         '        self._family = family\n        if family in FAMILY_ODF_STD and self.tag == "style:style":\n            self.set_attribute("style:family", family)',
+         '        if family in FAMILY_ODF_STD and self.tag == "style:style":\n            self.set_attribute("style:family", family)\n        else:\n            self._family = family', "R12p"),
+    Seed("get_deleted(no_header) retags a clone of the heading", "fault", "src/odfdo/tracked_changes.py",
+         '                    para = Element.from_tag("text:p")\n                    para.text = text\n                    for child in children:\n                        para.append(child.clone)',
+         '                    para = element.clone\n                    para.tag = "text:p"', "R12q"),
     Seed("PropDef setter names its sink arguments", "neutral", "src/odfdo/element.py", "            self.__element.set(name, str(value))", "            elem = self.__element\n            text = str(value)\n            elem.set(name, text)"),
     Seed("unregister Section", "fault", "src/odfdo/section.py", "register_element_class(Section)\n", "", "R12a"),
     Seed("Span registered for text:a too (shadowing Link)", "fault", "src/odfdo/paragraph.py",
